@@ -1,6 +1,8 @@
 """C02 rules D1 (sibling chains, one unknown-parameter classifier), D3 (type flow carried across
-untyped nodes, same gate direction as run time), D5 (abstract context state updated completely,
-after the node's own parameters were classified)."""
+untyped nodes - decided on the CFG of the normal form of validate_pipeline, helper inlined; the compatibility
+test accepts only what the run-time gate accepts), D4 (created keys are written whatever the context holds),
+D5 (abstract context state updated completely, after the node's own parameters were classified; the
+deleted-key availability test reads the state at node entry)."""
 from __future__ import annotations
 
 import ast
@@ -127,14 +129,663 @@ def run(repo: Repo, R: Report) -> None:
             if isinstance(a, ast.For) and a is not loop and any(nid in after for nid in g.nodes_for(a)):
                 late.append(c)
     R.check(not late, r_state, BUILDER, BPI, "parameters are classified before the node's created/suppressed keys are registered", "a node's own created keys are visible while its parameters are classified: a node that requires and creates the same key satisfies itself", loop.lineno)
-    ok = False
+    _deleted_availability(bf, loop, g, DK, SUP, CK, R, r_state)
+
+
+def _deleted_availability(bf: ast.AST, loop: ast.For, g: CFG, DK: str, SUP: str, CK: str, R: Report, r_state: str) -> None:
+    """A parameter read from a key that an earlier node deleted is an error of the node; the test reads the
+    deleted-set as it is when the node is entered (before the node's own creations / deletions are applied)
+    and does not exempt the keys the node itself suppresses or creates."""
+    heads = set(g.nodes_for(loop))
+
+    def mutates(n: ast.AST) -> bool:
+        if isinstance(n, ast.Call) and isinstance(n.func, ast.Attribute) and dotted_name(n.func.value) == DK and n.func.attr in ("update", "add", "remove", "discard", "difference_update", "intersection_update", "symmetric_difference_update", "clear", "pop"):
+            return True
+        if isinstance(n, ast.AugAssign) and dotted_name(n.target) == DK:
+            return True
+        if isinstance(n, (ast.Assign, ast.AnnAssign)):
+            ts = n.targets if isinstance(n, ast.Assign) else [n.target]
+            return any(dotted_name(t) == DK for t in ts)
+        return False
+
+    mut_stmts = [stmt_of(n) for n in ast.walk(loop) if mutates(n)]
+    mut_nodes = {nid for st in mut_stmts for nid in g.nodes_for(st)}
+
+    def local_defs(name: str) -> List[ast.AST]:
+        return [n for n in ast.walk(loop) if isinstance(n, (ast.Assign, ast.AnnAssign)) and n.value is not None and any(isinstance(t, ast.Name) and t.id == name for t in (n.targets if isinstance(n, ast.Assign) else [n.target]))]
+
+    def chain(e: ast.AST, depth: int = 3) -> List[ast.AST]:
+        """statements (local definitions inside the loop body) the value of *e* is computed by"""
+        out: List[ast.AST] = []
+        if depth == 0:
+            return out
+        for nm in sorted({x.id for x in ast.walk(e) if isinstance(x, ast.Name) and x.id != DK}):
+            for d in local_defs(nm):
+                if not any(d is o for o in out):
+                    out.append(d)
+                    for d2 in chain(d.value, depth - 1):
+                        if not any(d2 is o for o in out):
+                            out.append(d2)
+        return out
+
+    guards = []
     for n in ast.walk(loop):
-        if isinstance(n, ast.Assign) and isinstance(n.targets[0], ast.Name) and DK in {x.id for x in ast.walk(n.value) if isinstance(x, ast.Name)} and any(isinstance(b, ast.BinOp) and isinstance(b.op, ast.BitAnd) for b in ast.walk(n.value)):
-            v = n.targets[0].id
-            if any(call_attr(c) == "append" and any(isinstance(a, ast.If) and v in {x.id for x in ast.walk(a.test) if isinstance(x, ast.Name)} for a in ancestors(c)) for c in calls_in(loop)):
-                ok = True
-    R.check(ok, r_state, BUILDER, BPI, "required ∩ deleted keys -> node error", "requiring a key that an earlier node deleted is not reported", loop.lineno)
+        if not isinstance(n, ast.If) or any(mutates(x) for b in n.body for x in ast.walk(b)):
+            continue
+        if not any(isinstance(c, ast.Call) and call_attr(c) == "append" for b in n.body for c in ast.walk(b)):
+            continue
+        defs = chain(n.test)
+        readers = [d for d in defs if DK in {x.id for x in ast.walk(d.value) if isinstance(x, ast.Name)}]
+        direct = DK in {x.id for x in ast.walk(n.test) if isinstance(x, ast.Name)}
+        if readers or direct:
+            guards.append((n, defs, readers + ([n] if direct else [])))
+    R.check(bool(guards), r_state, BUILDER, BPI, "required ∩ deleted keys -> node error", "requiring a key that an earlier node deleted is not reported", loop.lineno)
+    if not guards:
+        return
+    saved = {h: g.succ[h] for h in heads}
+    for h in heads:
+        g.succ[h] = []
+    try:
+        after = g.reach(list(mut_nodes))
+    finally:
+        for h, v in saved.items():
+            g.succ[h] = v
+    # names that hold this node's own suppressed / created keys
+    own: Set[str] = {SUP, CK}
+    own |= {t.id for a in ast.walk(loop) if isinstance(a, (ast.Assign, ast.AnnAssign)) and a.value is not None and any(isinstance(c, ast.Call) and call_attr(c) == "get_suppressed_keys" for c in ast.walk(a.value)) for t in (a.targets if isinstance(a, ast.Assign) else [a.target]) if isinstance(t, ast.Name)}
+    own.discard("__missing__")
+    for gd, defs, readers in guards:
+        late = [rd for rd in readers if any(nid in after and nid not in mut_nodes for nid in g.nodes_for(rd))]
+        R.check(not late, r_state, BUILDER, BPI, "the deleted-key availability test reads the deleted set as it is when the node is entered", f"`{norm(late[0]) if late else ''}` reads `{DK}` after this node's own created keys were removed from it / its suppressed keys added to it: a key that an earlier node deleted and that this node re-creates or deletes again is not seen as missing, the configuration is accepted and the run fails with 'Unable to resolve parameter'", getattr(late[0], "lineno", loop.lineno) if late else gd.lineno)
+        exempt = []
+        for e in [d.value for d in defs] + [gd.test]:
+            for b in ast.walk(e):
+                right = None
+                if isinstance(b, ast.BinOp) and isinstance(b.op, ast.Sub):
+                    right = b.right
+                elif isinstance(b, ast.Call) and call_attr(b) in ("difference", "difference_update") and b.args:
+                    right = b.args[0]
+                elif isinstance(b, ast.Compare) and len(b.ops) == 1 and isinstance(b.ops[0], ast.NotIn):
+                    right = b.comparators[0]
+                if right is not None and ({x.id for x in ast.walk(right) if isinstance(x, ast.Name)} & own):
+                    exempt.append(b)
+        R.check(not exempt, r_state, BUILDER, BPI, "keys the node itself suppresses or creates are not exempted from the deleted-key availability test", f"`{ast.unparse(exempt[0]) if exempt else ''}` exempts the keys this node suppresses/creates: a key deleted by an earlier node *and* by this node (delete:k, delete:k / delete:k, rename:k:j) is never reported although the node cannot read it at run time", getattr(exempt[0], "lineno", gd.lineno) if exempt else gd.lineno)
 
 
 def _defined_before_loop(fn: ast.AST, loop: ast.For, name: str) -> bool:
     return any(isinstance(n, (ast.Assign, ast.AnnAssign)) and any(dotted_name(t) == name for t in (n.targets if isinstance(n, ast.Assign) else [n.target])) and n.lineno < loop.lineno for n in walk_no_nested(fn))
+
+
+# =====================================================================================================
+# generic helpers: guard implication, None-atoms
+# =====================================================================================================
+SWEEP = "semantiva/data_processors/parametric_sweep_factory.py"
+
+
+def _implies(e: ast.AST, atom, val: bool) -> bool:
+    """Does "*e* evaluates to a value whose truth is *val*" imply that (at least one of) the atom(s) holds?
+    ``atom(x)`` is True when x *is* an atom, False when x is the negation of one, None otherwise."""
+    p = atom(e)
+    if p is True and val:
+        return True
+    if p is False and not val:
+        return True
+    if isinstance(e, ast.UnaryOp) and isinstance(e.op, ast.Not):
+        return _implies(e.operand, atom, not val)
+    if isinstance(e, ast.BoolOp):
+        subs = [_implies(v, atom, val) for v in e.values]
+        if isinstance(e.op, ast.And):
+            return any(subs) if val else all(subs)
+        return all(subs) if val else any(subs)
+    return False
+
+
+def _edges_implying(g: CFG, atom, usable=lambda node: True) -> Set[Tuple[int, str]]:
+    """(branch node, label) pairs on which an atom is guaranteed."""
+    out: Set[Tuple[int, str]] = set()
+    for n in g.nodes:
+        if n.kind in ("if", "while") and n.part is not None and usable(n):
+            if _implies(n.part, atom, True):
+                out.add((n.id, "T"))
+            if _implies(n.part, atom, False):
+                out.add((n.id, "F"))
+    return out
+
+
+def _none_atom(is_target):
+    """atom "<target> is None" (truthiness of the target counts as "is not None": node records and
+    type objects are never falsy)."""
+
+    def atom(e: ast.AST) -> Optional[bool]:
+        if isinstance(e, ast.Compare) and len(e.ops) == 1 and isinstance(e.comparators[0], ast.Constant) and e.comparators[0].value is None and is_target(e.left):
+            if isinstance(e.ops[0], (ast.Is, ast.Eq)):
+                return True
+            if isinstance(e.ops[0], (ast.IsNot, ast.NotEq)):
+                return False
+        if is_target(e):
+            return False
+        return None
+
+    return atom
+
+
+def _neg(atom):
+    def a(e):
+        p = atom(e)
+        return None if p is None else (not p)
+
+    return a
+
+
+def _either(*atoms):
+    def a(e):
+        res = [x(e) for x in atoms]
+        if any(r is True for r in res):
+            return True
+        if any(r is False for r in res):
+            return False
+        return None
+
+    return a
+
+
+def _is_name(e: ast.AST, name: Optional[str]) -> bool:
+    return isinstance(e, ast.Name) and e.id == name
+
+
+def _is_attr_of(e: ast.AST, name: Optional[str], attr: str) -> bool:
+    return isinstance(e, ast.Attribute) and e.attr == attr and _is_name(e.value, name)
+
+
+def _inside(node: Optional[ast.AST], root: ast.AST) -> bool:
+    return node is not None and (node is root or any(a is root for a in ancestors(node)))
+
+
+# =====================================================================================================
+# D3: type flow
+# =====================================================================================================
+_NF = dict(keep=("_is_compatible",), copyprop="all")
+
+
+def _flow_site(repo: Repo, skip: Tuple[str, ...] = ()) -> Optional[Tuple[str, ast.AST, ast.AST, ast.Call]]:
+    """(qualname, normal form, loop, compatibility call) of the function that holds the type-flow loop.
+    Functions are tried before validate_pipeline (whose normal form has the helper inlined)."""
+    from ..normal import nfunc
+
+    mod = repo.module(VALIDATOR)
+    names = [q for q, n in mod.defs.items() if isinstance(n, FuncNode) and "." not in q and q not in ("_is_compatible", "validate_pipeline") + tuple(skip)]
+    for qn in names + ["validate_pipeline"]:
+        if qn in skip or repo.maybe_func(VALIDATOR, qn) is None:
+            continue
+        f = nfunc(repo, VALIDATOR, qn, **_NF)
+        for lp in walk_no_nested(f):
+            if isinstance(lp, ast.For):
+                comp = [c for c in calls_in(lp) if call_attr(c) == "_is_compatible"]
+                if comp:
+                    return qn, f, lp, comp[0]
+    return None
+
+
+def _type_flow_rules(repo: Repo, R: Report) -> None:
+    from ..cfg import reaching_defs
+
+    r_flow = R.rule("C02-D3-type-flow-carried", "the data-type check compares each node's input type with the output type of the last node that declared one (a predecessor carried from earlier iterations, updated for every typed node and for typed nodes only), for every node that has a typed predecessor and an input type, as (predecessor output, this input); an incompatibility is recorded as an error of the node and validate_pipeline cannot return normally while a node carries an error", 8)
+    site = _flow_site(repo)
+    if site is None:
+        raise AnalysisError("validator: loop calling _is_compatible not found")
+    FN, f, lp, comp = site
+    if len(comp.args) != 2 or comp.keywords:
+        raise AnalysisError("_is_compatible is not called with two positional arguments")
+    A, B = comp.args
+    g = CFG(f, may_raise=lambda part: set())
+    heads = set(g.nodes_for(lp))
+    inloop = {n.id for n in g.nodes if n.ast is not None and _inside(n.ast, lp)} - heads
+    entries = [t for h in heads for t, lab in g.succ[h] if lab == "T"]
+    cstmt = stmt_of(comp)
+    comp_nodes = set(g.nodes_for(cstmt))
+    if not comp_nodes:
+        raise AnalysisError("type-flow loop: the statement of the _is_compatible call is not in the CFG")
+
+    def leaves(seen) -> List[int]:
+        """nodes that end the iteration (next iteration or out of the loop)"""
+        return [n for n in seen if n in heads or n not in inloop]
+
+    def within(starts, **kw):
+        """reachability inside one iteration: loop heads are reported but not expanded"""
+        starts = [s for s in starts]
+        saved = {h: g.succ[h] for h in heads}
+        for h in heads:
+            g.succ[h] = []
+        try:
+            return g.reach(starts, **kw)
+        finally:
+            for h, v in saved.items():
+                g.succ[h] = v
+
+    # -- who is compared: (predecessor output, this node's input)
+    X = B.value.id if isinstance(B, ast.Attribute) and B.attr == "input_type" and isinstance(B.value, ast.Name) else None
+    if isinstance(A, ast.Attribute) and A.attr == "output_type" and isinstance(A.value, ast.Name):
+        P, carried_is = A.value.id, "node"
+    elif isinstance(A, ast.Name):
+        P, carried_is = A.id, "type"
+    else:
+        P, carried_is = None, "?"
+    ok_args = X is not None and P is not None and P != X
+    R.check(ok_args, r_flow, VALIDATOR, FN, norm(comp), "compatibility is not tested as (carried predecessor's output type, this node's input type)", comp.lineno)
+    if not ok_args:
+        return
+    over_all = X in _names_of(lp.target) and any(isinstance(a, ast.Attribute) and a.attr == "nodes" for a in ast.walk(lp.iter)) and not any(isinstance(a, (ast.Subscript, ast.Slice)) for a in ast.walk(lp.iter))
+
+    # -- the predecessor is carried from earlier iterations
+    cnode = sorted(comp_nodes)[0]
+    rd = reaching_defs(g, P, cnode)
+    in_defs = [d for d in rd if d.id in inloop]
+    copies = [d for d in in_defs if isinstance(d.ast, (ast.Assign, ast.AnnAssign)) and isinstance(d.ast.value, ast.Name) and d.ast.value.id != P]
+    if in_defs and len(copies) == len(in_defs) == len(rd) and len({d.ast.value.id for d in copies}) == 1:
+        C = copies[0].ast.value.id
+        uses = [d.id for d in copies]
+    else:
+        C, uses = P, [cnode]
+    c_defs = [d for u in uses for d in reaching_defs(g, C, u)]
+    ups = {d.id: d for d in c_defs if d.id in inloop and d.kind == "stmt"}
+    pre = [d for d in c_defs if d.id not in inloop and d.id not in heads]
+    carried = bool(ups) and bool(pre)
+    R.check(carried, r_flow, VALIDATOR, FN, f"predecessor `{P}` at the comparison comes from a loop-carried variable", "the predecessor compared with a node is not carried over from earlier iterations (adjacent nodes only): a type change separated by a context-only node is accepted and fails with TypeError at run time", lp.lineno)
+    if not carried:
+        return
+    if not over_all:
+        raise AnalysisError(f"type-flow loop: `{X}` is not the element of a loop over all inspection nodes; shape not recognised")
+    want = X if carried_is == "node" else f"{X}.output_type"
+    val_ok = all(isinstance(d.ast, (ast.Assign, ast.AnnAssign)) and d.ast.value is not None and ast.unparse(d.ast.value) == want for d in ups.values())
+    init_ok = all(isinstance(d.ast, (ast.Assign, ast.AnnAssign)) and isinstance(d.ast.value, ast.Constant) and d.ast.value.value is None for d in pre)
+    R.check(val_ok and init_ok, r_flow, VALIDATOR, FN, f"carried predecessor starts as None and is only ever set to `{want}`", "the carried predecessor is not the node (or output type) of the iteration that sets it", lp.lineno)
+    # the value compared is the one from *before* this iteration's update
+    after_up = within(list(ups))
+    stale = [u for u in uses if u in after_up and u not in ups]
+    R.check(not stale, r_flow, VALIDATOR, FN, "the predecessor is read before this iteration updates it", "the carried predecessor is updated before it is read: a node is compared with itself, not with its predecessor", lp.lineno)
+
+    out_none = _none_atom(lambda e: _is_attr_of(e, X, "output_type"))
+    # updated for EVERY typed node: an iteration that ends without the update went through "output_type is None"
+    seen = within(entries, blocked=set(ups) - set(entries), blocked_edges=_edges_implying(g, out_none))
+    bad = [n for n in leaves(seen)] if not (set(entries) & set(ups)) else []
+    R.check(not bad, r_flow, VALIDATOR, FN, "carried predecessor := node whenever node.output_type is not None", "the carried predecessor is not updated for every typed node (e.g. skipped for type-preserving nodes, or after the skip of unchecked nodes): leading nodes are never checked and an incompatible pipeline is accepted", lp.lineno, path=g.path_to(seen, bad[0]) if bad else None)
+    # ... and for typed nodes ONLY
+    seen = within(entries, blocked_edges=_edges_implying(g, _neg(out_none)))
+    bad = [u for u in ups if u in seen]
+    R.check(not bad, r_flow, VALIDATOR, FN, "carried predecessor is updated only under node.output_type is not None", "a node without an output type becomes the predecessor: the type produced before a context-only node is forgotten", lp.lineno, path=g.path_to(seen, bad[0]) if bad else None)
+
+    # -- skip conditions: an iteration that ends without the comparison had no typed predecessor or no input type
+    def pred_name(e: ast.AST) -> bool:
+        return _is_name(e, P) or (C != P and _is_name(e, C))
+
+    def usable(node) -> bool:
+        # a test that mentions the carried variable itself is only meaningful before this iteration's update
+        if C != P and C in _names_of(node.part) and node.id in after_up:
+            return False
+        return True
+
+    skip_ok = _either(_none_atom(pred_name), _none_atom(lambda e: _is_attr_of(e, X, "input_type")))
+    seen = within(entries, blocked=comp_nodes - set(entries), blocked_edges=_edges_implying(g, skip_ok, usable))
+    bad = leaves(seen) if not (set(entries) & comp_nodes) else []
+    R.check(not bad, r_flow, VALIDATOR, FN, "the comparison is skipped only when there is no typed predecessor or no input type", "typed nodes are skipped by an additional condition: a node with a typed predecessor and an input type is not checked", lp.lineno, path=g.path_to(seen, bad[0]) if bad else None)
+
+    # -- an incompatibility is recorded on the node
+    # the verdict is either branched on directly or named once (`ok = _is_compatible(...)`) and branched on later
+    verdict: Optional[str] = None
+    if isinstance(cstmt, (ast.If, ast.While)) and any(x is comp for x in ast.walk(cstmt.test)):
+        pass
+    elif isinstance(cstmt, (ast.Assign, ast.AnnAssign)) and cstmt.value is comp and len(_targets(cstmt)) == 1 and isinstance(_targets(cstmt)[0], ast.Name) and len(assigned_value(f, _targets(cstmt)[0].id)) == 1:
+        verdict = _targets(cstmt)[0].id
+    else:
+        raise AnalysisError("type-flow loop: the _is_compatible verdict is neither a branch condition nor a once-assigned local; shape not recognised")
+    compat = lambda e: True if (e is comp or (verdict is not None and _is_name(e, verdict))) else None  # noqa: E731
+    rec = [c for c in calls_in(lp) if call_attr(c) in ("append", "extend") and isinstance(c.func, ast.Attribute) and _is_attr_of(c.func.value, X, "errors")]
+    rec_nodes = {nid for c in rec for nid in g.nodes_for(stmt_of(c))}
+    seen = within(list(comp_nodes), blocked=rec_nodes, blocked_edges=_edges_implying(g, compat, lambda n: n.id in inloop))
+    bad = leaves(seen)
+    R.check(bool(rec) and not bad, r_flow, VALIDATOR, FN, f"not compatible -> {X}.errors.append(...)", "a detected incompatibility is not recorded as an error of the node on every path", cstmt.lineno, path=g.path_to(seen, bad[0]) if bad else None)
+
+    _validate_raises(repo, R, r_flow)
+    _compat_rule(repo, R)
+
+
+def _targets(st: ast.AST) -> List[ast.AST]:
+    return list(st.targets) if isinstance(st, ast.Assign) else [st.target]
+
+
+def _names_of(e: Optional[ast.AST]) -> Set[str]:
+    return {x.id for x in ast.walk(e) if isinstance(x, ast.Name)} if e is not None else set()
+
+
+def _validate_raises(repo: Repo, R: Report, r_flow: str) -> None:
+    """validate_pipeline: the type-flow check runs first; no normal return while a node has errors."""
+    from ..normal import nfunc
+
+    FN = "validate_pipeline"
+    vp = nfunc(repo, VALIDATOR, FN, **_NF)
+    I = vp.args.args[0].arg if vp.args.args else None
+    flow = [lp for lp in walk_no_nested(vp) if isinstance(lp, ast.For) and any(call_attr(c) == "_is_compatible" for c in calls_in(lp))]
+    if not flow:
+        # the flow function may be too large to inline: accept a call that resolves to it
+        site = _flow_site(repo, skip=(FN,))
+        flow = [stmt_of(c) for c in calls_in(vp) if site is not None and call_attr(c) == site[0] and any(_is_name(a, I) for a in c.args)]
+    R.check(bool(flow), r_flow, VALIDATOR, FN, "validate_pipeline runs the type-flow check", "validate_pipeline does not run the data-type flow check: incompatible pipelines are accepted", vp.lineno)
+    if not flow:
+        return
+    flow = [lp for lp in flow if not any(_inside(lp, o) for o in flow if o is not lp)]
+    g = CFG(vp, may_raise=lambda part: set())
+    flow_nodes = {nid for lp in flow for nid in g.nodes_for(lp)}
+
+    def node_var_iter(it: ast.AST) -> bool:
+        return isinstance(it, ast.Attribute) and it.attr == "nodes" and _is_name(it.value, I)
+
+    def full_comp(e: ast.AST) -> bool:
+        """[... for n in I.nodes for err in n.errors] without filters, element built from err"""
+        if not isinstance(e, (ast.ListComp, ast.GeneratorExp, ast.SetComp)) or len(e.generators) != 2:
+            return False
+        g1, g2 = e.generators
+        if g1.ifs or g2.ifs or not node_var_iter(g1.iter) or not isinstance(g1.target, ast.Name) or not isinstance(g2.target, ast.Name):
+            return False
+        return _is_attr_of(g2.iter, g1.target.id, "errors") and g2.target.id in _names_of(e.elt)
+
+    def per_node(e: ast.AST, n: str) -> bool:
+        """all errors of node n: n.errors, or an unfiltered comprehension over it"""
+        if _is_attr_of(e, n, "errors"):
+            return True
+        if isinstance(e, (ast.ListComp, ast.GeneratorExp)) and len(e.generators) == 1:
+            g1 = e.generators[0]
+            return not g1.ifs and _is_attr_of(g1.iter, n, "errors") and isinstance(g1.target, ast.Name) and g1.target.id in _names_of(e.elt)
+        return False
+
+    carriers: Dict[str, List[ast.AST]] = {}
+
+    def carries(e: Optional[ast.AST]) -> bool:
+        if e is None:
+            return False
+        if isinstance(e, ast.Name):
+            return e.id in carriers
+        if isinstance(e, ast.BinOp) and isinstance(e.op, ast.Add):
+            return carries(e.left) or carries(e.right)
+        if isinstance(e, ast.Call) and call_name(e) in ("list", "tuple", "sorted") and len(e.args) == 1:
+            return carries(e.args[0])
+        if isinstance(e, (ast.List, ast.Tuple)):
+            return any(isinstance(x, ast.Starred) and carries(x.value) for x in e.elts)
+        return full_comp(e)
+
+    def plain_loops_only(st: ast.AST) -> Optional[List[ast.For]]:
+        """enclosing compound statements of *st* up to the function: only for-loops without break/continue"""
+        loops: List[ast.For] = []
+        for a in ancestors(st):
+            if a is vp:
+                break
+            if isinstance(a, ast.For) and not a.orelse and not any(isinstance(x, (ast.Break, ast.Continue, ast.Return)) for x in ast.walk(a)):
+                loops.append(a)
+            else:
+                return None
+        return loops
+
+    changed = True
+    while changed:
+        changed = False
+        for st in walk_no_nested(vp):
+            if any(_inside(st, lp) for lp in flow):
+                continue
+            tgt: Optional[str] = None
+            if isinstance(st, (ast.Assign, ast.AnnAssign)):
+                ts = st.targets if isinstance(st, ast.Assign) else [st.target]
+                if len(ts) == 1 and isinstance(ts[0], ast.Name) and carries(st.value) and plain_loops_only(st) == []:
+                    tgt = ts[0].id
+            elif isinstance(st, ast.AugAssign) and isinstance(st.op, ast.Add) and isinstance(st.target, ast.Name):
+                lps = plain_loops_only(st)
+                if lps == [] and carries(st.value):
+                    tgt = st.target.id
+                elif lps is not None and len(lps) == 1 and node_var_iter(lps[0].iter) and isinstance(lps[0].target, ast.Name) and per_node(st.value, lps[0].target.id):
+                    tgt = st.target.id
+            elif isinstance(st, ast.Expr) and isinstance(st.value, ast.Call) and isinstance(st.value.func, ast.Attribute) and isinstance(st.value.func.value, ast.Name) and len(st.value.args) == 1:
+                c, recv, arg = st.value, st.value.func.value.id, st.value.args[0]
+                lps = plain_loops_only(st)
+                if lps is None:
+                    continue
+                if c.func.attr == "extend":
+                    if lps == [] and carries(arg):
+                        tgt = recv
+                    elif len(lps) == 1 and node_var_iter(lps[0].iter) and isinstance(lps[0].target, ast.Name) and per_node(arg, lps[0].target.id):
+                        tgt = recv
+                elif c.func.attr == "append" and len(lps) == 2:
+                    inner, outer = lps[0], lps[1]
+                    if node_var_iter(outer.iter) and isinstance(outer.target, ast.Name) and _is_attr_of(inner.iter, outer.target.id, "errors") and isinstance(inner.target, ast.Name) and inner.target.id in _names_of(arg):
+                        tgt = recv
+            if tgt is not None and not any(s is st for s in carriers.get(tgt, [])):
+                carriers.setdefault(tgt, []).append(st)
+                changed = True
+    def any_node_errors(e: ast.AST) -> bool:
+        """any(n.errors for n in I.nodes): true iff some node carries an error"""
+        if not (isinstance(e, ast.Call) and call_name(e) == "any" and len(e.args) == 1 and isinstance(e.args[0], (ast.GeneratorExp, ast.ListComp)) and len(e.args[0].generators) == 1):
+            return False
+        g1 = e.args[0].generators[0]
+        return not g1.ifs and node_var_iter(g1.iter) and isinstance(g1.target, ast.Name) and _is_attr_of(e.args[0].elt, g1.target.id, "errors")
+
+    direct_tests = [n for n in walk_no_nested(vp) if any_node_errors(n) and not any(_inside(n, lp) for lp in flow)]
+    reads = [n for n in walk_no_nested(vp) if isinstance(n, ast.Attribute) and n.attr == "errors" and not _is_name(n.value, I) and not any(_inside(n, lp) for lp in flow)]
+    if not carriers and not direct_tests:
+        if reads:
+            raise AnalysisError("validate_pipeline: node errors are read, but the way they are collected is not recognised")
+        R.violation(r_flow, VALIDATOR, FN, "node errors decide the outcome of validate_pipeline", "validate_pipeline never reads the errors recorded on the nodes: a detected incompatibility does not make validation fail", vp.lineno)
+        return
+    # the collection is complete only after the flow check ran
+    # (the check may be bypassed when there are no nodes at all)
+    no_nodes = _empty_atom(lambda e: isinstance(e, ast.Attribute) and e.attr == "nodes" and _is_name(e.value, I))
+    first = g.reach([g.entry], blocked=flow_nodes, blocked_edges=_edges_implying(g, no_nodes))
+    early = [s for lst in carriers.values() for s in lst if any(top in first for top in _top_nodes(g, s, vp))]
+    early += [stmt_of(t) for t in direct_tests if any(top in first for top in _top_nodes(g, stmt_of(t), vp))]
+    R.check(not early and g.ret_exit not in first, r_flow, VALIDATOR, FN, "node errors are collected after the type-flow check", "node errors are collected (or the function returns) before the type-flow check has run: a detected incompatibility does not make validation fail", vp.lineno)
+
+    def is_carrier(e: ast.AST) -> bool:
+        return isinstance(e, ast.Name) and e.id in carriers
+
+    _emp = _empty_atom(is_carrier)
+
+    def empty(e: ast.AST) -> Optional[bool]:
+        if any_node_errors(e):
+            return False  # truthy => some node has errors
+        return _emp(e)
+
+    def final(node) -> bool:
+        """the test reads a carrier after everything was added to it"""
+        used = {x for x in _names_of(node.part) if x in carriers}
+        later = g.reach([t for t, _l in g.succ[node.id]])
+        return not any(top in later for u in used for s in carriers[u] for top in _top_nodes(g, s, vp))
+
+    seen = g.reach([g.entry], blocked_edges=_edges_implying(g, empty, final))
+    R.check(g.ret_exit not in seen, r_flow, VALIDATOR, FN, f"validate_pipeline returns normally only when the collected node errors ({', '.join(sorted(carriers)) or 'any(node.errors)'}) are empty", "validate_pipeline can return normally although a node carries an error: a detected incompatibility does not make validation fail", vp.lineno, path=g.path_to(seen, g.ret_exit) if g.ret_exit in seen else None)
+
+
+def _empty_atom(is_target):
+    """atom "<target collection> is empty" (truthiness, len() comparisons, comparison with an empty display)"""
+
+    def is_len(e: ast.AST) -> bool:
+        return isinstance(e, ast.Call) and call_name(e) == "len" and len(e.args) == 1 and is_target(e.args[0])
+
+    def atom(e: ast.AST) -> Optional[bool]:
+        if is_target(e) or is_len(e):
+            return False  # truthy => not empty
+        if isinstance(e, ast.Compare) and len(e.ops) == 1:
+            l, op, rgt = e.left, e.ops[0], e.comparators[0]
+            if is_len(l) and isinstance(rgt, ast.Constant):
+                if (isinstance(op, ast.Eq) and rgt.value == 0) or (isinstance(op, ast.Lt) and rgt.value == 1) or (isinstance(op, ast.LtE) and rgt.value == 0):
+                    return True
+                if (isinstance(op, (ast.NotEq, ast.Gt)) and rgt.value == 0) or (isinstance(op, ast.GtE) and rgt.value == 1):
+                    return False
+            if is_target(l) and isinstance(rgt, (ast.List, ast.Tuple)) and not rgt.elts:
+                if isinstance(op, ast.Eq):
+                    return True
+                if isinstance(op, ast.NotEq):
+                    return False
+        return None
+
+    return atom
+
+
+def _top_nodes(g: CFG, st: ast.AST, fn: ast.AST) -> List[int]:
+    """CFG nodes of *st* (or, for a statement nested in loops, of its outermost enclosing loop)."""
+    top = st
+    for a in ancestors(st):
+        if a is fn:
+            break
+        if isinstance(a, ast.stmt):
+            top = a
+    return g.nodes_for(top) or g.nodes_for(st)
+
+
+def _compat_rule(repo: Repo, R: Report) -> None:
+    """_is_compatible(out, in) may answer yes only where the run-time gate lets the data through."""
+    from ..normal import nfunc
+
+    r = R.rule("C02-D3-compatible-implies-gate", "inspection's compatibility test answers yes only when the predecessor's declared output type equals or is a subclass of the node's input type - the condition under which the run-time gate issubclass(type(data), input_type) accepts the data; it has no other accepting branch", 2)
+    ic = nfunc(repo, VALIDATOR, "_is_compatible", copyprop="all")
+    if len(ic.args.args) < 2:
+        raise AnalysisError("_is_compatible: two parameters expected")
+    p0, p1 = ic.args.args[0].arg, ic.args.args[1].arg
+    iss = [c for c in ast.walk(ic) if isinstance(c, ast.Call) and call_attr(c) == "issubclass"]
+    ok = len(iss) >= 1 and all([dotted_name(a) for a in c.args] == [p0, p1] for c in iss)
+    R.check(ok, r, VALIDATOR, "_is_compatible", f"issubclass({p0}, {p1})", "inspection's compatibility rule is not the run-time gate's direction issubclass(output, input)", ic.lineno)
+
+    def gate(e: ast.AST) -> Optional[bool]:
+        if isinstance(e, ast.Call) and call_attr(e) == "issubclass" and [dotted_name(a) for a in e.args] == [p0, p1] and not e.keywords:
+            return True
+        if isinstance(e, ast.Compare) and len(e.ops) == 1 and {dotted_name(e.left), dotted_name(e.comparators[0])} == {p0, p1}:
+            if isinstance(e.ops[0], (ast.Eq, ast.Is)):
+                return True
+            if isinstance(e.ops[0], (ast.NotEq, ast.IsNot)):
+                return False
+        return None
+
+    g = CFG(ic)
+    seen = g.reach([g.entry], blocked_edges=_edges_implying(g, gate))
+    bad = []
+    for nid in seen:
+        n = g.nodes[nid]
+        if n.kind == "stmt" and isinstance(n.ast, ast.Return):
+            v = n.ast.value
+            falsy = v is None or (isinstance(v, ast.Constant) and not v.value)
+            if not falsy and not _implies(v, gate, True):
+                bad.append(n)
+    bad.sort(key=lambda n: n.line)
+    for n in bad:
+        R.violation(r, VALIDATOR, "_is_compatible", norm(n.ast), f"`{norm(n.ast)}` can answer 'compatible' without {p0} == {p1} or issubclass({p0}, {p1}) having been established: a pipeline whose data the run-time gate rejects (TypeError) is accepted by validation", n.line, path=g.path_to(seen, n.id))
+    if not bad:
+        R.ok(r, VALIDATOR, "_is_compatible", "every accepting return is guarded by equality or issubclass(output, input)", "", ic.lineno)
+
+
+# =====================================================================================================
+# D4: keys a node is said to create are written when it runs, whatever the context holds
+# =====================================================================================================
+def _created_keys_written(repo: Repo, R: Report) -> None:
+    from ..cfg import EXC, BASE
+
+    r = R.rule("C02-D4-created-keys-written", "where a run-time component publishes a mapping of created keys into the run context (for key, value in <created>.items(): <write>), whether a pair is written never depends on what the context currently holds (no membership test on the context, no setdefault): inspection records the publishing node as the producer of every declared key unconditionally", 3)
+    for rel in (SWEEP, NODES):
+        repo.module(rel)  # recorded as consulted (evidence, benign-corpus selection)
+    for mod, qn, f in repo.all_functions():
+        if mod.rel not in (SWEEP, NODES):
+            continue
+        # names that denote a run context in this function: receivers of set_value / first argument of update_context
+        fn_ctx = {dotted_name(c.func.value) for c in calls_in(f) if isinstance(c.func, ast.Attribute) and c.func.attr == "set_value"} | {dotted_name(c.args[0]) for c in calls_in(f) if call_attr(c) == "update_context" and c.args}
+        fn_ctx.discard(None)
+        for lp in walk_no_nested(f):
+            if not (isinstance(lp, ast.For) and isinstance(lp.target, ast.Tuple) and len(lp.target.elts) == 2 and all(isinstance(t, ast.Name) for t in lp.target.elts)):
+                continue
+            if not (isinstance(lp.iter, ast.Call) and call_attr(lp.iter) == "items" and not lp.iter.args):
+                continue
+            k, v = lp.target.elts[0].id, lp.target.elts[1].id
+            writes: List[Tuple[ast.AST, ast.AST]] = []  # (statement, context expression)
+            soft: List[Tuple[ast.AST, ast.AST]] = []
+            for n in walk_no_nested(lp):
+                if isinstance(n, ast.Call) and isinstance(n.func, ast.Attribute):
+                    a = n.args
+                    if n.func.attr == "set_value" and len(a) >= 2 and _is_name(a[0], k) and _is_name(a[1], v):
+                        writes.append((stmt_of(n), n.func.value))
+                    elif n.func.attr == "update_context" and len(a) >= 3 and _is_name(a[1], k) and _is_name(a[2], v):
+                        writes.append((stmt_of(n), a[0]))
+                    elif n.func.attr == "setdefault" and len(a) == 2 and _is_name(a[0], k) and _is_name(a[1], v):
+                        soft.append((stmt_of(n), n.func.value))
+            soft = [(st, c) for st, c in soft if dotted_name(c) in fn_ctx]
+            if not writes and not soft:
+                continue
+            problems: List[Tuple[ast.AST, str]] = []
+            for st, ctx in soft:
+                problems.append((st, f"`{norm(st)}` keeps the value an earlier producer left in `{ast.unparse(ctx)}`"))
+            ctx_names = {dotted_name(c) for _s, c in writes + soft if dotted_name(c)}
+            tainted = set(ctx_names)
+            changed = True
+            while changed:
+                changed = False
+                for n in walk_no_nested(f):
+                    if isinstance(n, (ast.Assign, ast.AnnAssign)) and n.value is not None and not _inside(n, lp):
+                        ts = n.targets if isinstance(n, ast.Assign) else [n.target]
+                        if _reads_content(n.value, tainted, ctx_names):
+                            for t in ts:
+                                for x in (t.elts if isinstance(t, (ast.Tuple, ast.List)) else [t]):
+                                    if isinstance(x, ast.Name) and x.id not in tainted:
+                                        tainted.add(x.id)
+                                        changed = True
+                    if isinstance(n, (ast.Assign, ast.AnnAssign)) and n.value is not None and _inside(n, lp) and _reads_content(n.value, tainted, ctx_names):
+                        ts = n.targets if isinstance(n, ast.Assign) else [n.target]
+                        for t in ts:
+                            if isinstance(t, ast.Name) and t.id not in tainted:
+                                tainted.add(t.id)
+                                changed = True
+            if writes:
+                g = CFG(f, may_raise=lambda part: set())
+                heads = set(g.nodes_for(lp))
+                wn = {nid for st, _c in writes for nid in g.nodes_for(st)}
+                inloop = {n.id for n in g.nodes if n.ast is not None and _inside(n.ast, lp)} - heads
+
+                def reach_in(starts):
+                    saved = {h: g.succ[h] for h in heads}
+                    for h in heads:
+                        g.succ[h] = []
+                    try:
+                        return g.reach(starts, skip_labels={EXC, BASE})
+                    finally:
+                        for h, s in saved.items():
+                            g.succ[h] = s
+
+                def can_write(nid: int) -> bool:
+                    return nid in wn or bool(wn & set(reach_in([nid])))
+
+                def silent(nid: int) -> bool:
+                    s = reach_in([nid])
+                    return any(x in heads or (x not in inloop and g.nodes[x].kind not in ("exc_exit", "base_exit")) for x in s)
+
+                for nid in sorted(inloop):
+                    n = g.nodes[nid]
+                    if n.kind != "if" or not can_write(nid):
+                        continue
+                    for t, lab in g.succ[nid]:
+                        if lab in ("T", "F") and not can_write(t) and silent(t) and _reads_content(n.part, tainted, ctx_names):
+                            problems.append((n.ast, f"`{norm(n.ast)}` decides from the present content of `{'/'.join(sorted(ctx_names))}` whether a created key is written: the node inspection names as producer leaves the key untouched and a later reader gets an earlier producer's value"))
+                            break
+            if problems:
+                for st, what in problems:
+                    R.violation(r, mod.rel, qn, norm(st), what, getattr(st, "lineno", lp.lineno))
+            else:
+                R.ok(r, mod.rel, qn, norm(lp), "every (key, value) pair is written regardless of the context's content", lp.lineno)
+
+
+def _reads_content(e: ast.AST, tainted: Set[str], base: Optional[Set[str]] = None) -> bool:
+    """Does *e* read a tainted name other than in a capability / presence-of-context test
+    (isinstance(ctx, T), hasattr(ctx, 'x'), ctx is [not] None)?"""
+    skip: Set[int] = set()
+    base = tainted if base is None else base
+    for n in ast.walk(e):
+        if isinstance(n, ast.Call) and call_name(n) in ("isinstance", "hasattr") and n.args and dotted_name(n.args[0]) in base:
+            skip |= {id(x) for x in ast.walk(n)}
+        if isinstance(n, ast.Compare) and len(n.ops) == 1 and isinstance(n.ops[0], (ast.Is, ast.IsNot)) and isinstance(n.comparators[0], ast.Constant) and n.comparators[0].value is None and dotted_name(n.left) in base:
+            skip |= {id(x) for x in ast.walk(n)}
+    for n in ast.walk(e):
+        if id(n) in skip:
+            continue
+        if isinstance(n, (ast.Name, ast.Attribute)) and dotted_name(n) in tainted:
+            return True
+    return False
